@@ -21,6 +21,7 @@ from ..core import Prop
 compat.install()
 
 _MODS = None
+_PROT = None
 
 
 def _mods():
@@ -32,6 +33,10 @@ def _mods():
         import pybrops.breed.prot.sel.prob.OptimalPopulationValueSelectionProblem as opvp
         import pybrops.breed.prot.sel.prob.GenotypeBuilderSelectionProblem as gbp
         import pybrops.breed.prot.sel.OptimalHaploidValueSelection as ohvsel
+        import pybrops.breed.prot.sel.OptimalPopulationValueSelection as opvsel
+        import pybrops.breed.prot.sel.GenotypeBuilderSelection as gbsel
+        global _PROT
+        _PROT = (opvsel, gbsel)
         from pybrops.popgen.gmat.DensePhasedGenotypeMatrix import DensePhasedGenotypeMatrix
         from pybrops.model.gmod.DenseAdditiveLinearGenomicModel import DenseAdditiveLinearGenomicModel
         _MODS = (haplo, ohvp, opvp, gbp, ohvsel, DensePhasedGenotypeMatrix, DenseAdditiveLinearGenomicModel)
@@ -91,17 +96,30 @@ class C18(Prop):
     N_THOROUGH = 6000
     CORRESPONDENCE = "functional"
     RULE = ("marker layouts of 1-4 chromosomes x 1-7 markers (integer / dyadic positions: evenly spread, "
-            "clustered, duplicated positions, markers exactly on a linspace boundary, zero-length chromosomes; a "
-            "second stream with arbitrary floats), every block total between the chromosome count and the marker "
-            "count, 0/1 genotypes of 2-5 taxa x 1-4 phases, signed power-of-two / dyadic / float effects for 1-3 "
-            "traits, parent tuples of size 1-3 with and without repeated parents, direct haplobin / "
-            "haplobin_bounds calls with arbitrary block counts and label vectors; mutate-then-requery sequences on ONE "
-            "OPV / OHV / GB problem object (build from data A, evaluate, assign the matrices of data B -- other "
-            "effects, genotypes and possibly ploidy, other nbestfndr -- through the public setters, evaluate, put A "
-            "back, evaluate), Spec on every answer recomputed from the data current at that time.  Non-trivial = "
-            "requery case whose second answer differs from the first, or pipeline case "
-            "with more blocks than chromosomes, >= 2 taxa and >= 2 markers on some chromosome")
-    TRUSTED = ["numpy.dot / max / sort as modelled in Model/Haplo.lean (values compared at 1e-9)",
+            "clustered, duplicated positions, markers exactly on a linspace boundary, zero-length chromosomes, large "
+            "common offsets 25000 + k/64 and 1e9 +- 0.5, spans of 1e-8; a second stream with arbitrary floats), every "
+            "block total between the chromosome count and the marker count, 0/1 genotypes (random, partly inbred = "
+            "phases tied at most loci, monomorphic columns) of 2-5 taxa x 1-4 phases, signed power-of-two / dyadic / "
+            "float / 1e-8 / 1e-5 / 25000 + small / 1e9 +- 0.5 effects for 1-3 traits, parent tuples of size 1-4 with and "
+            "without repeated parents; fixed corpus cases with 1081 / 2300 cross configurations (2 and 3 memory chunks of "
+            "_calc_ohvmat), a 150-marker block of all-ones genotypes (> 127), 1100 markers, 130 blocks.  Every pipeline "
+            "case goes through ALL entry points: haplo.haplomat (other integer dtypes, integer effect arrays, Fortran / "
+            "strided arrays), the OHV / OPV / GB factories on containers that optionally carry every piece of metadata "
+            "(variant mask with False entries, names, crossover probabilities, taxa groups, non-zero intercept, fixed "
+            "effects, no trait names, arbitrary chromosome labels, nhaploblk as numpy.int64), _calc_ohvmat called "
+            "directly with two other chunk sizes (1, 2, 3, s-1, s, s+1, 1024, None), the four OHV selection protocols "
+            "(subset / real / integer / binary problems; weighted latent functions) and the OPV / GB protocols.  Direct "
+            "haplobin / haplobin_bounds calls with arbitrary block counts and label vectors; mutate-then-requery "
+            "sequences on ONE OPV / OHV / GB problem object (build from data A, evaluate, assign the matrices of data B "
+            "-- other effects, genotypes and possibly ploidy, other nbestfndr -- through the public setters, evaluate, "
+            "put A back, evaluate, overwrite the held array IN PLACE with the data of A with reversed taxa, evaluate), "
+            "Spec on every answer recomputed from the data current at that time.  Non-trivial = requery case whose "
+            "second or fourth answer differs from the first, or pipeline case with more blocks than chromosomes, >= 2 "
+            "taxa and >= 2 markers on some chromosome")
+    TRUSTED = ["numpy.dot / max / sort as modelled in Model/Haplo.lean (values compared at 1e-9 relative to the "
+               "magnitude of the data, ploidy * sum |u|)",
+               "the driver's answers are memoised per process by request text (deterministic ops; only the self-test "
+               "re-sends identical requests)",
                "IEEE binary64: the layout part of the model (apportionment, linspace, labels, block bounds) is EXECUTED at "
                "Lean's Float with numpy's operation order and compared bit for bit on every case; the theorems cover it "
                "through the rounding contract RoundOK / ChromRoundOK (monotone rounding, 0 and the first position "
@@ -119,12 +137,29 @@ class C18(Prop):
 
     # ------------------------------------------------------------------ generation
     @staticmethod
-    def _mk(rng, chroms, nhaploblk, ntaxa=None, ploidy=2, ntrait=None, ustyle=None, kind="pipeline", isfloat=False):
+    def _mk(rng, chroms, nhaploblk, ntaxa=None, ploidy=2, ntrait=None, ustyle=None, kind="pipeline", isfloat=False,
+            nparent=None, unique=None, gstyle=None, opts=None):
         p = sum(len(c) for c in chroms)
         ntaxa = ntaxa or rng.choice([2, 3, 3, 4, 5])
         ntrait = ntrait or rng.choice([1, 1, 2, 3])
         geno = [[[rng.randint(0, 1) for _ in range(p)] for _ in range(ntaxa)] for _ in range(ploidy)]
-        ustyle = ustyle or rng.choice(["pow2", "pow2", "small", "dyadic", "float"])
+        gstyle = gstyle or rng.choice(["random"] * 4 + ["inbred", "mono"])
+        if gstyle == "inbred" and ploidy >= 2:
+            # partly inbred parents: every phase copies phase 0 except at a few loci (exact ties between the phases)
+            het = set(rng.sample(range(p), rng.randint(0, max(0, p // 3))))
+            for m in range(1, ploidy):
+                for i in range(ntaxa):
+                    geno[m][i] = [g if j not in het else geno[m][i][j] for j, g in enumerate(geno[0][i])]
+        elif gstyle == "mono":
+            # constant columns next to varying ones
+            for j in rng.sample(range(p), rng.randint(1, max(1, p // 2))):
+                a = rng.randint(0, 1)
+                for m in range(ploidy):
+                    for i in range(ntaxa):
+                        geno[m][i][j] = a
+        elif gstyle == "ones":
+            geno = [[[1] * p for _ in range(ntaxa)] for _ in range(ploidy)]
+        ustyle = ustyle or rng.choice(["pow2", "pow2", "small", "dyadic", "float", "tiny", "e5", "offset", "big"])
         u = []
         for i in range(p):
             row = []
@@ -133,26 +168,86 @@ class C18(Prop):
                     v = Fraction(rng.choice([1, -1]) * 2 ** ((i * (t + 1) + t) % 12))
                 elif ustyle == "small":
                     v = Fraction(rng.randint(-3, 3))
+                elif ustyle == "one":
+                    v = Fraction(1)
                 elif ustyle == "dyadic":
                     v = Fraction(rng.randint(-40, 40), rng.choice([1, 2, 4, 8]))
+                # magnitudes that a tolerance-style "fix" (isclose / clip / eps / float32) would disturb
+                elif ustyle == "tiny":      # ~1e-8
+                    v = Fraction(rng.randint(-9, 9), 2 ** 30)
+                elif ustyle == "e5":        # ~1e-5
+                    v = Fraction(rng.randint(-9, 9), 2 ** 17)
+                elif ustyle == "offset":    # large common offset + small differences
+                    v = Fraction(25000) + Fraction(rng.randint(-8, 8), 16)
+                elif ustyle == "big":       # 1e9 +- 0.5
+                    v = Fraction(rng.choice([1, -1]) * 10 ** 9) + Fraction(rng.randint(-1, 1), 2)
                 else:
                     v = Fraction(rng.uniform(-2, 2))
                 row.append(v)
             u.append(row)
-        nparent = rng.choice([1, 2, 2, 2, 3]) if ntaxa >= 3 else rng.choice([1, 2])
-        unique = rng.random() < 0.6
+        if ntrait >= 2 and rng.random() < 0.06:
+            # a trait without any marker effect (magnitude 0: the tolerance collapses to exact equality)
+            tz = rng.randrange(ntrait)
+            for row in u:
+                row[tz] = Fraction(0)
+        nparent = nparent or (rng.choice([1, 2, 2, 2, 3, 3, 4]) if ntaxa >= 3 else rng.choice([1, 2]))
+        unique = (rng.random() < 0.6) if unique is None else unique
         if unique and nparent > ntaxa:
             nparent = ntaxa
         nx = math.comb(ntaxa, nparent) if unique else math.comb(ntaxa + nparent - 1, nparent)
-        x_ohv = [rng.randrange(nx) for _ in range(rng.randint(1, 3))]
+        # a subset decision holds DISTINCT cross configurations
+        x_ohv = rng.sample(range(nx), min(nx, rng.randint(1, 3)))
         kpop = rng.randint(1, ntaxa)
         x_pop = rng.sample(range(ntaxa), kpop)
         nbest = rng.randint(1, kpop)
-        dh = [[[rng.randrange(ploidy), rng.randrange(nparent)] for _ in range(max(1, nhaploblk))] for _ in range(3)]
-        return {"kind": kind, "float": isfloat,
+        dh = [[[rng.randrange(ploidy), rng.randrange(nparent)] for _ in range(max(1, min(nhaploblk, 12)))] for _ in range(3)]
+        if nx > 40:         # crosses of the first and of the last memory chunk
+            x_ohv = [0, nx - 1] + [i for i in x_ohv if i not in (0, nx - 1)][:1]
+        if opts is None:
+            opts = C18._opts(rng, p, ntrait, nx, ustyle)
+        return {"kind": kind, "float": isfloat, "opts": opts,
                 "genpos": _encpos(chroms), "chr_sizes": [len(c) for c in chroms],
                 "nhaploblk": nhaploblk, "geno": geno, "u": canon.enc(u),
                 "nparent": nparent, "unique": unique, "x_ohv": x_ohv, "x_pop": x_pop, "nbest": nbest, "dh": dh}
+
+    @staticmethod
+    def _opts(rng, p, ntrait, nx, ustyle):
+        """rarely used options / argument forms / secondary entry points of one pipeline case"""
+        o = {}
+        # optional metadata of the containers: variant mask with False entries, names, crossover probabilities,
+        # taxa labels and groups; a genomic model with a non-zero intercept and fixed effects
+        if rng.random() < 0.5:
+            mask = [rng.random() < 0.6 for _ in range(p)]
+            o["meta"] = {"mask": mask, "beta": [rng.choice([-3, 2, 5, 7]) for _ in range(ntrait)],
+                         "u_misc": rng.random() < 0.5, "trait_none": rng.random() < 0.3}
+        # memory layout of the arrays handed over: C (default), Fortran order, strided views of larger arrays
+        o["layout"] = rng.choice(["C", "C", "F", "strided"])
+        # dtypes for the direct call of haplo.haplomat (integer effects only where the effects are integers)
+        o["gdtype"] = rng.choice(["int8", "int8", "int16", "int64"])
+        o["udtype"] = rng.choice(["float64", "int64"]) if ustyle in ("pow2", "small") else "float64"
+        o["nh_numpy"] = rng.random() < 0.3
+        # chromosome labels need not be 1..c
+        o["chr0"] = rng.choice([1, 1, 0, 3, 11])
+        o["chrstep"] = rng.choice([1, 1, 2, 5])
+        # chunk sizes for direct calls of _calc_ohvmat (None = Python None)
+        cand = [1, 2, 3, max(1, nx - 1), nx, nx + 1, 1024, None]
+        o["mems"] = rng.sample(cand, 2) if nx <= 64 else [None, rng.choice([1000, 1024, 512, nx - 1])]
+        # weights for the real / integer / binary encodings: x_i derived from (a, b); see _weights
+        o["xw"] = [rng.randint(1, 7), rng.randint(0, 7)]
+        return o
+
+    @staticmethod
+    def _weights(xw, nx):
+        """decision vectors of the real / integer / binary OHV problems (one weight per cross configuration)"""
+        a, b = xw
+        base = [(a * i + b) % 5 for i in range(nx)]
+        real = [Fraction(v, 4) for v in base]
+        integer = [Fraction(v % 3) for v in base]
+        binary = [Fraction(v % 2) for v in base]
+        for w in (real, integer, binary):
+            if sum(w) == 0:
+                w[0] = Fraction(1)
+        return real, integer, binary
 
     @staticmethod
     def _positions(rng, style, n):
@@ -183,6 +278,15 @@ class C18(Prop):
             xs = [x for x in xs if x <= xs[1]] + [xs[1]] * sum(1 for x in xs if x > xs[1])
             a = Fraction(rng.choice([0, 0, 1, 3, 7]), 10)
             return sorted(Fraction(float(a + x)) for x in xs)
+        # magnitudes that interact with tolerance-style comparisons (isclose / eps) and with float32: a large common
+        # offset with small differences, 1e9 +- 0.5, spans of ~1e-8
+        if style == "offset":
+            return sorted(Fraction(25000) + Fraction(rng.randint(0, 24), 64) for _ in range(n))
+        if style == "big":
+            return sorted(Fraction(10 ** 9) + Fraction(rng.randint(-6, 6), 2) for _ in range(n))
+        if style == "micro":
+            a = rng.randint(0, 3)
+            return sorted(Fraction(a) + Fraction(rng.randint(0, 12), 2 ** 30) for _ in range(n))
         if style == "flat":
             return [Fraction(rng.randint(0, 3))] * n
         if style == "float":
@@ -193,11 +297,11 @@ class C18(Prop):
     def _layout_case(self, rng, style=None):
         nchr = rng.choice([1, 1, 2, 2, 3, 4])
         style = style or rng.choice(["even", "even", "int", "int", "dyadic", "cluster", "tie", "tie", "mixed", "float",
-                                      "decimal"])
+                                      "decimal", "offset", "big", "micro"])
         chroms = []
         for _ in range(nchr):
             n = rng.choice([1, 2, 3, 3, 4, 5, 6, 7])
-            s = style if style != "mixed" else rng.choice(["even", "int", "cluster", "tie", "flat", "dyadic"])
+            s = style if style != "mixed" else rng.choice(["even", "int", "cluster", "tie", "flat", "dyadic", "micro", "offset"])
             chroms.append(self._positions(rng, s, n))
         return chroms, style
 
@@ -233,6 +337,37 @@ class C18(Prop):
         # mutate-then-requery on one problem object (a stale cache behind the public setters would show here)
         out.append(self._mk_requery(rng, [[F(i) for i in range(5)]], 4))
         out.append(self._mk_requery(rng, [[F(0), F(1), F(2)], [F(5), F(6)]], 3))
+        # sizes past internal constants -------------------------------------------------------------------
+        # more cross configurations than the memory chunk of _calc_ohvmat (mem = 1024 in every factory):
+        # 47 taxa, two-way, unique -> 1081 (2 chunks); 25 taxa, three-way, triploid -> 2300 (3 chunks);
+        # 46 taxa, two-way with selfs -> 1081
+        out.append(self._mk(rng, [[F(0), F(1), F(2)], [F(0), F(2)]], 3, ntaxa=47, ploidy=2, ntrait=2, ustyle="small",
+                            nparent=2, unique=True))
+        out.append(self._mk(rng, [[F(0), F(1), F(2), F(3)]], 2, ntaxa=25, ploidy=3, ntrait=1, ustyle="pow2",
+                            nparent=3, unique=True))
+        out.append(self._mk(rng, [[F(0), F(1)], [F(3)]], 2, ntaxa=46, ploidy=2, ntrait=1, ustyle="small",
+                            nparent=2, unique=False))
+        # a block of 150 markers, all alleles 1, all effects 1: block value 150 > 127 (int8 genotypes)
+        out.append(self._mk(rng, [[F(i) for i in range(300)]], 2, ntaxa=2, ploidy=2, ntrait=1, ustyle="one",
+                            gstyle="ones", nparent=2, unique=False))
+        # more markers than 1024, three chromosomes
+        out.append(self._mk(rng, [[F(i) for i in range(400)], [F(2 * i) for i in range(400)], [F(i, 2) for i in range(300)]],
+                            5, ntaxa=2, ploidy=2, ntrait=1, ustyle="small", nparent=2, unique=True))
+        # more blocks than 127 (130 blocks on 300 evenly spread markers: boundaries are not representable)
+        out.append(self._mk(rng, [[F(i) for i in range(300)]], 130, ntaxa=2, ploidy=2, ntrait=1, ustyle="small",
+                            nparent=2, unique=True))
+        # rarely used options, fixed: variant mask with False entries on markers with non-zero effects, non-zero
+        # intercept, Fortran-ordered arrays, non-consecutive chromosome labels, nhaploblk as numpy.int64
+        out.append(self._mk(rng, [[F(0), F(1), F(2)], [F(5), F(6)]], 4, ntaxa=3, ntrait=2, ustyle="pow2", nparent=2,
+                            unique=True, opts={"meta": {"mask": [True, False, True, False, True], "beta": [5, -3],
+                                                        "u_misc": True, "trait_none": True},
+                                               "layout": "F", "gdtype": "int64", "udtype": "int64", "nh_numpy": True,
+                                               "chr0": 3, "chrstep": 4, "mems": [1, None], "xw": [3, 1]}))
+        out.append(self._mk(rng, [[F(0), F(1), F(2), F(3)]], 3, ntaxa=4, ploidy=1, ntrait=1, ustyle="tiny", nparent=3,
+                            unique=False, opts={"meta": {"mask": [False, True, True, False], "beta": [7],
+                                                         "u_misc": False, "trait_none": False},
+                                                "layout": "strided", "gdtype": "int16", "udtype": "float64",
+                                                "nh_numpy": False, "chr0": 0, "chrstep": 1, "mems": [2, 3], "xw": [2, 5]}))
         # direct calls
         out.append({"kind": "haplobin", "float": False, "nblk": [3], "genpos": [0, 1, 2, 3, 4, 5, 6], "chr_sizes": [7]})
         out.append({"kind": "haplobin", "float": False, "nblk": [2, 1, 2], "chr_sizes": [7, 4, 6],
@@ -266,6 +401,9 @@ class C18(Prop):
                     k += rng.choice([1, 1, 1, 2, -1])
                 out.append({"kind": "bounds", "hbin": lab})
                 continue
+            if tier == "thorough" and rng.random() < 0.0015:
+                out.append(self._big_case(rng))
+                continue
             chroms, style = self._layout_case(rng)
             p = sum(len(c) for c in chroms)
             nchr = len(chroms)
@@ -297,6 +435,17 @@ class C18(Prop):
             ploidy = rng.choice([2, 2, 2, 2, 1, 3, 4])
             out.append(self._mk(rng, chroms, nh, ploidy=ploidy, isfloat=isfloat))
         return out
+
+    def _big_case(self, rng):
+        """more cross configurations than the memory chunk (1024) of _calc_ohvmat, on a small layout without empty bin"""
+        ntaxa, nparent, unique = rng.choice([(rng.randint(47, 52), 2, True), (rng.randint(46, 50), 2, False),
+                                             (rng.randint(20, 22), 3, True), (rng.randint(18, 19), 3, False),
+                                             (15, 4, True), (65, 2, True)])
+        F = Fraction
+        chroms = rng.choice([[[F(0), F(1), F(2)], [F(0), F(2)]], [[F(0), F(1), F(2), F(3)]], [[F(0), F(1)], [F(3)]]])
+        nh = rng.choice([len(chroms), len(chroms) + 1])
+        return self._mk(rng, chroms, nh, ntaxa=ntaxa, ploidy=rng.choice([2, 2, 3, 4]), ntrait=rng.choice([1, 2]),
+                        ustyle=rng.choice(["small", "pow2", "dyadic"]), nparent=nparent, unique=unique)
 
     def _mk_requery(self, rng, chroms=None, nh=None):
         """a layout without empty equal-width bin (exact arithmetic styles only), two data sets A and B on it"""
@@ -389,6 +538,7 @@ class C18(Prop):
             return self._run_requery(case, genpos, stix_l, spix_l)
         # ---- pipeline
         obs = {}
+        opts = case.get("opts") or {}
         nblk = haplo.nhaploblk_chrom(nh, genpos, stix, spix)
         hbin = haplo.haplobin(nblk, genpos, stix, spix)
         st, sp, ln = haplo.haplobin_bounds(hbin)
@@ -400,10 +550,14 @@ class C18(Prop):
         t = u.shape[1]
         hshape = (m, n, nh, t)
         hmats, finite, guard = {}, True, []
-        # copy 1: pybrops.core.util.haplo.haplomat
+        nhx = numpy.int64(nh) if opts.get("nh_numpy") else nh
+        # copy 1: pybrops.core.util.haplo.haplomat (other integer dtypes of the genome matrix, integer-valued effects
+        # as an integer array, non-contiguous arrays)
+        g1, gp1, u1 = self._relayout(opts.get("layout", "C"), geno.astype(opts.get("gdtype", "int8")), genpos,
+                                     u.astype(opts.get("udtype", "float64")))
         _dirty(hshape)
         try:
-            hm = haplo.haplomat(nh, geno, genpos, stix, spix, spix - stix, u)
+            hm = haplo.haplomat(nhx, g1, gp1, stix, spix, spix - stix, u1)
             hmats["haplo"], f = _finite_enc(hm)
             finite &= f
         except RuntimeError as e:
@@ -411,15 +565,7 @@ class C18(Prop):
                 raise
             guard.append("haplo")
         # the three problem classes, through the real container classes
-        pg = PG(mat=geno, vrnt_chrgrp=numpy.repeat(numpy.arange(1, len(stix_l) + 1), spix - stix),
-                vrnt_phypos=numpy.arange(p), vrnt_genpos=genpos.copy())
-        pg.group_vrnt()
-        carried = (numpy.array_equal(pg.vrnt_genpos, genpos) and numpy.array_equal(pg.vrnt_chrgrp_stix, stix)
-                   and numpy.array_equal(pg.vrnt_chrgrp_spix, spix) and numpy.array_equal(pg.mat, geno))
-        if not carried:
-            raise RuntimeError("container changed the layout handed to it")
-        gm = GM(beta=numpy.zeros((1, t)), u_misc=None, u_a=u.copy(),
-                trait=numpy.array(["t%d" % i for i in range(t)], dtype=object))
+        pg, gm = self._containers(case, geno, genpos, stix, spix, u)
         nx = len(case["x_ohv"])
         common = dict(decn_space_lower=None, decn_space_upper=None, nobj=t)
 
@@ -432,39 +578,132 @@ class C18(Prop):
                 guard.append(name)
                 return None
 
+        def fenc(a):
+            nonlocal finite
+            e, f = _finite_enc(a)
+            finite &= f
+            return e
+
+        xo = numpy.array(case["x_ohv"], dtype=int)
+        xp = numpy.array(case["x_pop"], dtype=int)
+        OHV = ohvp.OptimalHaploidValueSubsetSelectionProblem
         _dirty(hshape)
-        prob = guarded("ohv", lambda: ohvp.OptimalHaploidValueSubsetSelectionProblem.from_pgmat_gpmod(
-            nparent=case["nparent"], nhaploblk=nh, unique_parents=case["unique"], pgmat=pg, gpmod=gm,
+        prob = guarded("ohv", lambda: OHV.from_pgmat_gpmod(
+            nparent=case["nparent"], nhaploblk=nhx, unique_parents=case["unique"], pgmat=pg, gpmod=gm,
             ndecn=nx, decn_space=numpy.arange(max(1, math.comb(n + case["nparent"], case["nparent"]))), **common))
         if prob is not None:
-            obs["xmap"] = canon.enc(prob.decn_space_xmap)
-            obs["ohvmat"], f = _finite_enc(prob.ohvmat)
-            finite &= f
-            obs["ohv_latent"], f = _finite_enc(prob.latentfn(numpy.array(case["x_ohv"], dtype=int)))
-            finite &= f
+            xmap = prob.decn_space_xmap
+            obs["xmap"] = canon.enc(xmap)
+            obs["ohvmat"] = fenc(prob.ohvmat)
+            obs["ohv_latent"] = fenc(prob.latentfn(xo))
             # the haplotype matrix this class computed (static method, same arguments)
             _dirty(hshape)
-            hmats["ohv"], f = _finite_enc(type(prob)._calc_haplomat(pg, gm, nh))
-            finite &= f
+            H = OHV._calc_haplomat(pg, gm, nh)
+            hmats["ohv"] = fenc(H)
+            # ---- secondary entry points of the same mechanism
+            # (a) _calc_ohvmat called directly with other memory-chunk sizes
+            obs["ohvmat_mem"] = []
+            for mem in opts.get("mems", []):
+                _dirty((len(xmap), t))
+                obs["ohvmat_mem"].append(fenc(OHV._calc_ohvmat(H.shape[0], H, xmap, mem)))
+            # (b) the selection protocols build the problem from (pgmat, gpmod): subset / real / integer / binary
+            # (a subset decision holds distinct cross configurations: ncross <= number of configurations)
+            pk = dict(ntrait=t, nhaploblk=nhx, unique_parents=case["unique"], ncross=min(nx, len(xmap)), nparent=case["nparent"],
+                      nmating=1, nprogeny=1, nobj=t)
+            if "xw" in opts:
+                ws = self._weights(opts["xw"], len(xmap))
+                ent = {"xmap": [], "ohvmat": [], "latent": []}
+                q = ohvsel.OptimalHaploidValueSubsetSelection(**pk).problem(pg, None, None, None, gm, 0, 1)
+                obs["prot_subset"] = {"xmap": canon.enc(q.decn_space_xmap), "ohvmat": fenc(q.ohvmat),
+                                      "latent": fenc(q.latentfn(xo)), "eval": fenc(q.evalfn(xo)[0])}
+                for nm, w, dt in (("Real", ws[0], float), ("Integer", ws[1], int), ("Binary", ws[2], int)):
+                    q = getattr(ohvsel, "OptimalHaploidValue%sSelection" % nm)(**pk).problem(pg, None, None, None, gm, 0, 1)
+                    ent["xmap"].append(canon.enc(q.decn_space_xmap))
+                    ent["ohvmat"].append(fenc(q.ohvmat))
+                    ent["latent"].append(fenc(q.latentfn(numpy.array([float(v) for v in w]).astype(dt))))
+                obs["enc"] = ent
+        OPV = opvp.OptimalPopulationValueSubsetSelectionProblem
         _dirty(hshape)
-        prob2 = guarded("opv", lambda: opvp.OptimalPopulationValueSubsetSelectionProblem.from_pgmat_gpmod(
-            nhaploblk=nh, pgmat=pg, gpmod=gm, ndecn=len(case["x_pop"]), decn_space=numpy.arange(n), **common))
+        prob2 = guarded("opv", lambda: OPV.from_pgmat_gpmod(
+            nhaploblk=nhx, pgmat=pg, gpmod=gm, ndecn=len(xp), decn_space=numpy.arange(n), **common))
         if prob2 is not None:
-            hmats["opv"], f = _finite_enc(prob2.haplomat)
-            finite &= f
-            obs["opv_latent"], f = _finite_enc(prob2.latentfn(numpy.array(case["x_pop"], dtype=int)))
-            finite &= f
+            hmats["opv"] = fenc(prob2.haplomat)
+            obs["opv_latent"] = fenc(prob2.latentfn(xp))
+            if "xw" in opts:
+                q = _PROT[0].OptimalPopulationValueSubsetSelection(
+                    ntrait=t, nhaploblk=nhx, ncross=1, nparent=len(xp), nmating=1, nprogeny=1, nobj=t
+                ).problem(pg, None, None, None, gm, 0, 1)
+                hmats["opv_prot"] = fenc(q.haplomat)
+                obs["opv_prot"] = fenc(q.latentfn(xp))
+        GB = gbp.GenotypeBuilderSubsetSelectionProblem
         _dirty(hshape)
-        prob3 = guarded("gb", lambda: gbp.GenotypeBuilderSubsetSelectionProblem.from_pgmat_gpmod(
-            pgmat=pg, gpmod=gm, nhaploblk=nh, nbestfndr=case["nbest"], ndecn=len(case["x_pop"]),
+        prob3 = guarded("gb", lambda: GB.from_pgmat_gpmod(
+            pgmat=pg, gpmod=gm, nhaploblk=nhx, nbestfndr=case["nbest"], ndecn=len(xp),
             decn_space=numpy.arange(n), **common))
         if prob3 is not None:
-            hmats["gb"], f = _finite_enc(prob3.haplomat)
-            finite &= f
-            obs["gb_latent"], f = _finite_enc(prob3.latentfn(numpy.array(case["x_pop"], dtype=int)))
-            finite &= f
+            hmats["gb"] = fenc(prob3.haplomat)
+            obs["gb_latent"] = fenc(prob3.latentfn(xp))
+            if "xw" in opts:
+                q = _PROT[1].GenotypeBuilderSubsetSelection(
+                    ntrait=t, nhaploblk=nhx, nbestfndr=case["nbest"], ncross=1, nparent=len(xp), nmating=1,
+                    nprogeny=1, nobj=t
+                ).problem(pg, None, None, None, gm, 0, 1)
+                hmats["gb_prot"] = fenc(q.haplomat)
+                obs["gb_prot"] = fenc(q.latentfn(xp))
+        # the containers and the arrays handed over are read-only inputs of every entry point
+        obs["inputs_untouched"] = bool(numpy.array_equal(pg.mat, geno) and numpy.array_equal(gm.u_a, u)
+                                       and numpy.array_equal(pg.vrnt_genpos, genpos)
+                                       and numpy.array_equal(g1, geno) and numpy.array_equal(u1, u))
         obs.update(hmats=hmats, finite=finite, guard=guard)
         return obs
+
+    @staticmethod
+    def _relayout(layout, geno, genpos, u):
+        """the same values in another memory layout: Fortran order, or strided views into larger buffers"""
+        if layout == "F":
+            return numpy.asfortranarray(geno), genpos.copy(), numpy.asfortranarray(u)
+        if layout == "strided":
+            G = numpy.full((geno.shape[0], 2 * geno.shape[1], geno.shape[2] + 3), 7, dtype=geno.dtype)
+            gv = G[:, ::2, 1:-2]
+            gv[...] = geno
+            P = numpy.full(2 * len(genpos), numpy.nan)
+            pv = P[::2]
+            pv[...] = genpos
+            U = numpy.full((u.shape[0], u.shape[1] + 2), 99, dtype=u.dtype)
+            uv = U[:, 1:-1]
+            uv[...] = u
+            return gv, pv, uv
+        return geno, genpos.copy(), u.copy()
+
+    def _containers(self, case, geno, genpos, stix, spix, u):
+        """DensePhasedGenotypeMatrix + DenseAdditiveLinearGenomicModel carrying the case's arrays (and, when the case
+        says so, every optional piece of metadata the classes accept)"""
+        haplo, ohvp, opvp, gbp, ohvsel, PG, GM = _mods()
+        opts = case.get("opts") or {}
+        meta = opts.get("meta")
+        m, n, p = geno.shape
+        t = u.shape[1]
+        lens = spix - stix
+        chrlab = opts.get("chr0", 1) + opts.get("chrstep", 1) * numpy.arange(len(stix))
+        g, gp, uu = self._relayout(opts.get("layout", "C"), geno, genpos, u)
+        kw = {}
+        if meta:
+            kw = dict(vrnt_mask=numpy.array(meta["mask"], dtype=bool),
+                      vrnt_name=numpy.array(["mk%03d" % i for i in range(p)], dtype=object),
+                      vrnt_xoprob=numpy.array([0.5 if i in set(stix.tolist()) else 0.125 for i in range(p)]),
+                      vrnt_hapgrp=numpy.arange(p) // 2,
+                      taxa=numpy.array(["tx%02d" % i for i in range(n)], dtype=object),
+                      taxa_grp=numpy.arange(n) // 2)
+        pg = PG(mat=g, vrnt_chrgrp=numpy.repeat(chrlab, lens), vrnt_phypos=numpy.arange(p), vrnt_genpos=gp, **kw)
+        pg.group_vrnt()
+        carried = (numpy.array_equal(pg.vrnt_genpos, genpos) and numpy.array_equal(pg.vrnt_chrgrp_stix, stix)
+                   and numpy.array_equal(pg.vrnt_chrgrp_spix, spix) and numpy.array_equal(pg.mat, geno))
+        if not carried:
+            raise RuntimeError("container changed the layout handed to it")
+        beta = numpy.array([meta["beta"]], dtype=float) if meta else numpy.zeros((1, t))
+        gm = GM(beta=beta, u_misc=(numpy.full((2, t), 0.5) if meta and meta["u_misc"] else None), u_a=uu,
+                trait=None if meta and meta["trait_none"] else numpy.array(["t%d" % i for i in range(t)], dtype=object))
+        return pg, gm
 
     def _run_requery(self, case, genpos, stix_l, spix_l):
         """mutate-then-requery on ONE problem object per class: build from data set A, evaluate, replace the
@@ -482,8 +721,10 @@ class C18(Prop):
             obs["skipped"] = "layout has an empty equal-width bin (D10 is exercised by the pipeline cases)"
             return obs
 
-        def data(gk, uk):
+        def data(gk, uk, reverse=False):
             geno = numpy.array(case[gk], dtype="int8")
+            if reverse:
+                geno = geno[:, ::-1, :].copy()
             u = numpy.array([[_f(v) for v in r] for r in case[uk]], dtype=float)
             p = geno.shape[2]
             pg = PG(mat=geno, vrnt_chrgrp=numpy.repeat(numpy.arange(1, len(stix_l) + 1), spix - stix),
@@ -517,6 +758,12 @@ class C18(Prop):
                  ploidy2=int(p.ploidy), nlatent2=int(p.nlatent))
         p.haplomat = HA
         r.update(third=enc(p.latentfn(xp)), hmat3=enc(p.haplomat))
+        # fourth: the array the problem holds is edited IN PLACE (same object, new content = data A with the taxa in
+        # reverse order); a value remembered from an earlier query would now be stale
+        pgC, gmC = data("geno", "u", reverse=True)
+        HC = P._calc_haplomat(pgC, gmC, nh)
+        p.haplomat[...] = HC
+        r.update(fourth=enc(p.latentfn(xp)), hmat4=enc(p.haplomat))
         obs["opv"] = r
         # --- OHV
         Q = ohvp.OptimalHaploidValueSubsetSelectionProblem
@@ -530,6 +777,8 @@ class C18(Prop):
         r.update(second=enc(q.latentfn(xo)), second_eval=enc(q.evalfn(xo)[0]), ohvmat2=enc(q.ohvmat))
         q.ohvmat = OA
         r.update(third=enc(q.latentfn(xo)), ohvmat3=enc(q.ohvmat))
+        q.ohvmat[...] = Q._calc_ohvmat(HC.shape[0], HC, q.decn_space_xmap)
+        r.update(fourth=enc(q.latentfn(xo)), ohvmat4=enc(q.ohvmat))
         obs["ohv"] = r
         # --- GB
         G = gbp.GenotypeBuilderSubsetSelectionProblem
@@ -544,6 +793,8 @@ class C18(Prop):
         g.haplomat = GA
         g.nbestfndr = case["nbest"]
         r.update(third=enc(g.latentfn(xp)))
+        g.haplomat[...] = HC
+        r.update(fourth=enc(g.latentfn(xp)), hmat4=enc(g.haplomat))
         obs["gb"] = r
         obs["finite"] = fin[0]
         return obs
@@ -554,7 +805,34 @@ class C18(Prop):
         return [canon.enc(numpy.linspace(genpos[a], genpos[b - 1], nb + 1)) for a, b, nb in zip(stix, spix, nblk)]
 
     # ------------------------------------------------------------------ model requests
+    # answers of the (deterministic) driver ops, memoised per process: the self-test evaluates the same cases under
+    # every mutant, and most requests -- the model of the unchanged code, the Spec of outputs the mutant did not
+    # change -- repeat verbatim.  A memoised answer travels through the op `c18.const` (returns its argument).
+    _MEMO = {}
+    _PENDING = {}
+    _MEMO_MAX = 60000
+
     def requests(self, case, obs):
+        import hashlib
+        import json
+        reqs = self._requests(case, obs)
+        keys, out = [], []
+        for r in reqs:
+            k = hashlib.sha1(json.dumps(r, sort_keys=True).encode()).digest()
+            keys.append(k)
+            out.append({"op": "c18.const", "value": self._MEMO[k]} if k in self._MEMO else r)
+        self._PENDING[id(obs)] = keys
+        return out
+
+    def judge(self, case, obs, answers):
+        keys = self._PENDING.pop(id(obs), None)
+        if keys is not None and len(keys) == len(answers):
+            for k, a in zip(keys, answers):
+                if "ok" in a and k not in self._MEMO and len(self._MEMO) < self._MEMO_MAX:
+                    self._MEMO[k] = a["ok"]
+        return self._judge(case, obs, answers)
+
+    def _requests(self, case, obs):
         k = case["kind"]
         if k == "bounds":
             return [{"op": "c18.bounds", "hbin": case["hbin"]}]
@@ -589,13 +867,31 @@ class C18(Prop):
                  "ohvmat": obs["ohv"]["ohvmat3"], "opv_latent": obs["opv"]["third"],
                  "ohv_latent": obs["ohv"]["third"], "gb_latent": obs["gb"]["third"], "nbest": case["nbest"]},
             ]
+            if "fourth" in obs["opv"]:
+                genoC = [[row for row in reversed(gm)] for gm in case["geno"]]
+                reqs += [
+                    {"op": "c18.model", "guard": True, "geno": genoC, "u": case["u"], "nbest": case["nbest"],
+                     **base, **_PATCHED},
+                    # ... and on the FOURTH answers against the data written in place (A, taxa reversed)
+                    {**sbase, "geno": genoC, "u": case["u"], "hmats": [obs["opv"]["hmat4"], obs["gb"]["hmat4"]],
+                     "ohvmat": obs["ohv"]["ohvmat4"], "opv_latent": obs["opv"]["fourth"],
+                     "ohv_latent": obs["ohv"]["fourth"], "gb_latent": obs["gb"]["fourth"], "nbest": case["nbest"]},
+                ]
             return reqs
+        opts = case.get("opts") or {}
+        model = {"op": "c18.model", "nhaploblk": nh, "guard": True, "geno": case["geno"], "u": case["u"],
+                 "nparent": case["nparent"], "unique": case["unique"], "x_ohv": case["x_ohv"],
+                 "x_pop": case["x_pop"], "nbest": case["nbest"], **lay, **_PATCHED}
+        ws = None
+        if "xmap" in obs and "xw" in opts:
+            ws = [canon.enc(w) for w in self._weights(opts["xw"], len(obs["xmap"]))]
+            model["xw"] = ws[0]
+        if "ohvmat_mem" in obs:
+            model["mems"] = opts.get("mems", [])
         reqs = [{"op": "c18.nblk", "nhaploblk": nh, **lay, **_PATCHED},
                 {"op": "c18.haplobin", "nblk": obs["nblk"], "hbs": obs["hbs"], **lay, **_PATCHED},
                 {"op": "c18.bounds", "hbin": obs["hbin"]},
-                {"op": "c18.model", "nhaploblk": nh, "guard": True, "geno": case["geno"], "u": case["u"],
-                 "nparent": case["nparent"], "unique": case["unique"], "x_ohv": case["x_ohv"],
-                 "x_pop": case["x_pop"], "nbest": case["nbest"], **lay, **_PATCHED}]
+                model]
         spec = {"op": "c18.spec", "nhaploblk": nh, "nblk": obs["nblk"], "hbin": obs["hbin"],
                 "hstix": obs["hstix"], "hspix": obs["hspix"], "hlen": obs["hlen"],
                 "geno": case["geno"], "u": case["u"], "hmats": list(obs["hmats"].values()), "dh": case["dh"], **lay}
@@ -608,6 +904,19 @@ class C18(Prop):
             spec["x_ohv"] = case["x_ohv"]
         if "gb_latent" in obs:
             spec["nbest"] = case["nbest"]
+        # the same quantities obtained through the secondary entry points: each must meet the definition
+        more = list(obs.get("ohvmat_mem", []))
+        if "prot_subset" in obs:
+            more.append(obs["prot_subset"]["ohvmat"])
+        if "enc" in obs:
+            more += obs["enc"]["ohvmat"]
+            spec.update(xws=ws, ohvmat_w=obs["enc"]["ohvmat"], ohv_latent_w=obs["enc"]["latent"])
+        if more:
+            spec["ohvmats"] = more
+        if "opv_prot" in obs:
+            spec["opv_latents"] = [obs["opv_prot"]]
+        if "gb_prot" in obs:
+            spec["gb_latents"] = [obs["gb_prot"]]
         reqs.append(spec)
         return reqs
 
@@ -651,7 +960,7 @@ class C18(Prop):
                     return True
         return False
 
-    def judge(self, case, obs, answers):
+    def _judge(self, case, obs, answers):
         k = case["kind"]
         for a in answers:
             if "err" in a:
@@ -728,7 +1037,7 @@ class C18(Prop):
                 if obs["guard"]:
                     corr = False
                     notes.append(f"impl raised the marker-count guard in {obs['guard']}, model did not")
-                c2, n2 = self._corr_model(mm, obs)
+                c2, n2 = self._corr_model(mm, obs, case)
                 corr = corr and c2
                 notes += n2
         if not (robust and faithful):
@@ -754,11 +1063,13 @@ class C18(Prop):
         mn, mb = ans[0], ans[1]
         if "skipped" in obs:
             return {"corr": True, "spec": True, "nontrivial": False, "detail": "requery: " + obs["skipped"]}
-        mA, mB, sB, sA = ans[2:]
+        mA, mB, sB, sA = ans[2:6]
+        mC, sC = (ans[6], ans[7]) if len(ans) >= 8 else (None, None)
         notes, failed = [], []
-        close = lambda a, b: canon.close_enc(a, b, rel=1e-9, abs_=1e-9)
+        tol = 1e-9 * max(self._scale(case), self._scale(case, "u2", "geno2"))
+        close = lambda a, b: canon.close_enc(a, b, rel=1e-9, abs_=tol)
         # ---- Spec: definitions re-evaluated on the data that is CURRENT at the time of the answer
-        for tag, sp in (("second/new-data", sB), ("third/restored", sA)):
+        for tag, sp in (("second/new-data", sB), ("third/restored", sA)) + ((("fourth/in-place", sC),) if sC else ()):
             failed += [f"{c}[{tag}]" for c in sp["failed"]]
         if not obs["finite"]:
             failed.append("finite")
@@ -781,7 +1092,10 @@ class C18(Prop):
         else:
             pairs = [("opv", "opv_latent"), ("ohv", "ohv_latent"), ("gb", "gb_latent")]
             for name, key in pairs:
-                for step, mm in (("first", mA), ("second", mB), ("third", mA)):
+                for step, mm in (("first", mA), ("second", mB), ("third", mA)) + ((("fourth", mC),) if mC else ()):
+                    if "error" in mm:
+                        corr = False
+                        continue
                     if None in mm[key] or not close(mm[key], obs[name][step]):
                         corr = False
                         notes.append(f"{name}.{step}: model={mm[key]} impl={obs[name][step]}")
@@ -789,16 +1103,24 @@ class C18(Prop):
                     or not close(mB["hmat"], obs["gb"]["hmat2"]) or mB["xmap"] != obs["ohv"]["xmap"]:
                 corr = False
                 notes.append("matrices read back after the setter differ from the model of the new data")
-        changed = any(not close(obs[nm]["first"], obs[nm]["second"]) for nm in ("opv", "ohv", "gb"))
+        steps = ("first", "second", "third", "fourth")
+        changed = any(not close(obs[nm]["first"], obs[nm][k2]) for nm in ("opv", "ohv", "gb")
+                      for k2 in ("second", "fourth") if k2 in obs[nm])
         return {"corr": corr, "spec": not failed, "nontrivial": changed, "failed": failed,
-                "detail": f"requery failed={failed} opv={ {k: obs['opv'][k] for k in ('first', 'second', 'third')} } "
-                          f"ohv={ {k: obs['ohv'][k] for k in ('first', 'second', 'third')} } "
-                          f"gb={ {k: obs['gb'][k] for k in ('first', 'second', 'third')} } " + "; ".join(notes[:6])}
+                "detail": f"requery failed={failed} opv={ {k: obs['opv'].get(k) for k in steps} } "
+                          f"ohv={ {k: obs['ohv'].get(k) for k in steps} } "
+                          f"gb={ {k: obs['gb'].get(k) for k in steps} } " + "; ".join(notes[:6])}
 
     @staticmethod
-    def _corr_model(mm, obs):
+    def _scale(case, ukey="u", gkey="geno"):
+        """magnitude of the data: ploidy * max over traits of sum |u| (tolerances are relative to it)"""
+        cols = list(zip(*[[abs(_fr(v)) for v in r] for r in case[ukey]]))
+        return float(len(case[gkey]) * max((sum(c) for c in cols), default=Fraction(0)))
+
+    def _corr_model(self, mm, obs, case):
         notes = []
         ok = True
+        tol = 1e-9 * self._scale(case)
         if mm["nblk"] != obs["nblk"] or mm["hbin"] != obs["hbin"] or mm["hstix"] != obs["hstix"] \
                 or mm["hspix"] != obs["hspix"]:
             ok = False
@@ -815,18 +1137,56 @@ class C18(Prop):
                 for a, b in zip(model, impl):
                     cmp(a, b, what)
             elif model is not None:
-                if not canon.close(canon.dec(model), canon.dec(impl), rel=1e-9, abs_=1e-9):
+                if isinstance(impl, list) or not canon.close(canon.dec(model), canon.dec(impl), rel=1e-9, abs_=tol):
                     ok = False
-                    notes.append(f"{what}: model={model} impl={impl}")
+                    if len(notes) < 6:
+                        notes.append(f"{what}: model={model} impl={impl}")
 
         for name, h in obs["hmats"].items():
             cmp(mm["hmat"], h, "hmat[" + name + "]")
         if "xmap" in obs and mm["xmap"] != obs["xmap"]:
             ok = False
-            notes.append(f"xmap model={mm['xmap']} impl={obs['xmap']}")
+            notes.append(f"xmap model={mm['xmap']} impl={obs['xmap']}"[:300])
         for key in ("ohvmat", "ohv_latent", "opv_latent", "gb_latent"):
             if key in obs:
                 cmp(mm[key], obs[key], key)
+        # secondary entry points
+        for i, o in enumerate(obs.get("ohvmat_mem", [])):
+            mo = mm["ohvmat_mem"][i] if i < len(mm.get("ohvmat_mem", [])) else None
+            if isinstance(mo, dict) or mo is None:
+                ok = False
+                notes.append(f"_calc_ohvmat(mem={case['opts']['mems'][i]}): model {mo}")
+            else:
+                cmp(mo, o, f"_calc_ohvmat(mem={case['opts']['mems'][i]})")
+        if "prot_subset" in obs:
+            q = obs["prot_subset"]
+            if q["xmap"] != mm["xmap"]:
+                ok = False
+                notes.append("protocol[subset]: cross map differs")
+            cmp(mm["ohvmat"], q["ohvmat"], "protocol[subset].ohvmat")
+            cmp(mm["ohv_latent"], q["latent"], "protocol[subset].latentfn")
+            cmp(mm["ohv_latent"], q["eval"], "protocol[subset].evalfn")
+        if "enc" in obs:
+            e = obs["enc"]
+            ws = self._weights(case["opts"]["xw"], len(mm["xmap"]))
+            for k, nm in enumerate(("real", "integer", "binary")):
+                if e["xmap"][k] != mm["xmap"]:
+                    ok = False
+                    notes.append(f"protocol[{nm}]: cross map differs")
+                cmp(mm["ohvmat"], e["ohvmat"][k], f"protocol[{nm}].ohvmat")
+                if all(c is not None for r in mm["ohvmat"] for c in r):
+                    cols = list(zip(*[[canon.dec(c) for c in r] for r in mm["ohvmat"]]))
+                    want = [canon.enc(-sum(w * v for w, v in zip(ws[k], col)) / sum(ws[k])) for col in cols]
+                    cmp(want, e["latent"][k], f"protocol[{nm}].latentfn")
+            if mm.get("ohv_latent_w") is not None:
+                cmp(mm["ohv_latent_w"], e["latent"][0], "model ohvLatentW")
+        if "opv_prot" in obs:
+            cmp(mm["opv_latent"], obs["opv_prot"], "protocol[opv].latentfn")
+        if "gb_prot" in obs:
+            cmp(mm["gb_latent"], obs["gb_prot"], "protocol[gb].latentfn")
+        if obs.get("inputs_untouched") is False:
+            ok = False
+            notes.append("an entry point modified its input arrays")
         return ok, notes[:6]
 
     @staticmethod
@@ -861,9 +1221,42 @@ class C18(Prop):
         sig["model_predicts"] = bool(verdict.get("model_predicts"))
         return sig
 
+    @staticmethod
+    def _is_d10(case):
+        """generator-side helper (filters shrink candidates only; no verdict uses it): does the layout have an empty
+        equal-width bin / trip the marker-count guard, computed with numpy's own arithmetic"""
+        genpos = numpy.array([_f(x) for x in case["genpos"]], dtype=float)
+        stix, spix = (numpy.array(v) for v in _layout(case))
+        nh, nchr = case["nhaploblk"], len(stix)
+        if nh < nchr:
+            return True
+        gl = genpos[spix - 1] - genpos[stix]
+        with numpy.errstate(all="ignore"):
+            ideal = (nh / gl.sum()) * gl
+        nb = numpy.ones(nchr, dtype=int)
+        for _ in range(nh - nchr):
+            nb[(nb - ideal).argmin()] += 1
+        if numpy.any(nb > spix - stix):
+            return True
+        for a, b, k in zip(stix, spix, nb):
+            hb = numpy.linspace(genpos[a], genpos[b - 1], k + 1)
+            x = genpos[a:b]
+            for j in range(k - 1):
+                if not numpy.any((hb[j] <= x) & (x < hb[j + 1])):
+                    return True
+        return False
+
     def shrink(self, case):
+        """smaller variants that are still VALID inputs; a case without empty equal-width bin never shrinks into one
+        with (the search for a smaller failing input must not drift into the known defect D10)"""
         if case.get("kind") not in ("pipeline", "requery"):
             return
+        base = self._is_d10(case)
+        for c in self._shrink_raw(case):
+            if base or not self._is_d10(c):
+                yield c
+
+    def _shrink_raw(self, case):
         rq = case["kind"] == "requery"          # second data set shrinks along with the first
         sizes = case["chr_sizes"]
         p = sum(sizes)
@@ -890,6 +1283,10 @@ class C18(Prop):
                 c["genpos"] = case["genpos"][:i] + case["genpos"][i + 1:]
                 c["geno"] = [[g[:i] + g[i + 1:] for g in gm] for gm in case["geno"]]
                 c["u"] = case["u"][:i] + case["u"][i + 1:]
+                if (case.get("opts") or {}).get("meta"):
+                    o = dict(case["opts"])
+                    o["meta"] = dict(o["meta"], mask=o["meta"]["mask"][:i] + o["meta"]["mask"][i + 1:])
+                    c["opts"] = o
                 if rq:
                     c["geno2"] = [[g[:i] + g[i + 1:] for g in gm] for gm in case["geno2"]]
                     c["u2"] = case["u2"][:i] + case["u2"][i + 1:]
@@ -899,9 +1296,21 @@ class C18(Prop):
         if len(case["u"][0]) > 1:
             c = dict(case)
             c["u"] = [r[:1] for r in case["u"]]
+            if (case.get("opts") or {}).get("meta"):
+                o = dict(case["opts"])
+                o["meta"] = dict(o["meta"], beta=o["meta"]["beta"][:1])
+                c["opts"] = o
             if rq:
                 c["u2"] = [r[:1] for r in case["u2"]]
             yield c
+        # plain options (no metadata, C order, default dtypes)
+        if case.get("opts") and case["kind"] == "pipeline":
+            o = case["opts"]
+            if o.get("meta") or o.get("layout", "C") != "C" or o.get("gdtype", "int8") != "int8" \
+                    or o.get("udtype", "float64") != "float64" or o.get("nh_numpy"):
+                c = dict(case)
+                c["opts"] = {k: v for k, v in o.items() if k in ("mems", "xw")}
+                yield c
         # drop the last taxon
         ntaxa = len(case["geno"][0])
         if ntaxa > max(1, case["nparent"] if case["unique"] else 1):
@@ -914,7 +1323,7 @@ class C18(Prop):
                 c["geno2"] = [gm[:-1] for gm in case["geno2"]]
                 c["nbest2"] = min(case["nbest2"], len(c["x_pop"]))
             nx = math.comb(nt, case["nparent"]) if case["unique"] else math.comb(nt + case["nparent"] - 1, case["nparent"])
-            c["x_ohv"] = [i % nx for i in case["x_ohv"]]
+            c["x_ohv"] = sorted(set(i % nx for i in case["x_ohv"]))
             yield c
         # one phase less (first data set)
         if rq and len(case["geno2"]) > 1:
@@ -1085,6 +1494,130 @@ class C18(Prop):
                 return -(self.ploidy / nb) * best[len(x) - nb:len(x), :, :].sum((0, 1))
             return latentfn
 
+        # 7. the memory-chunk loop of _calc_ohvmat
+        from pybrops.core.util.subroutines import srange as _srange
+
+        def mk_ohvmat(kind):
+            def calc(ploidy, haplomat, xmap, mem=1024):
+                nconfig = xmap.shape[0]
+                out = numpy.zeros((nconfig, haplomat.shape[3]), dtype=haplomat.dtype)
+                step = nconfig if mem is None else mem
+                bad = kind.endswith("[factories]") and mem != 1024      # the change only shows at the hard-coded size
+                k = kind.split("[")[0]
+                for rst, rsp in zip(range(0, nconfig, step), _srange(step, nconfig, step)):
+                    xconfig = xmap[rst:rsp, :]
+                    val = haplomat[:, xconfig, :, :].max((0, 2)).sum(1)
+                    if kind.endswith("[factories]") and bad:
+                        out[rst:rsp, :] = ploidy * val
+                    elif k == "rescale":            # `out *= ploidy` inside the loop: earlier chunks rescaled again
+                        out[rst:rsp, :] = val
+                        out *= ploidy
+                    elif k == "stop_short":         # last row of every full chunk left unwritten
+                        e = rsp - 1 if rsp - rst == step and rsp < nconfig else rsp
+                        out[rst:e, :] = ploidy * val[:e - rst]
+                    elif k == "first_chunk_only":
+                        out[rst:rsp, :] = ploidy * val
+                        break
+                return out
+            return staticmethod(calc)
+
+        # 8. rarely used metadata "honoured" / intercept added (one per copy of _calc_haplomat)
+        def honour(mix, what):
+            orig = mix.__dict__["_calc_haplomat"].__func__
+
+            def calc(pgmat, gpmod, nhaploblk):
+                class G:
+                    pass
+                g = G()
+                g.u_a = gpmod.u_a
+                if what == "mask" and pgmat.vrnt_mask is not None:
+                    g.u_a = gpmod.u_a * pgmat.vrnt_mask[:, None]
+                h = orig(pgmat, g, nhaploblk)
+                if what == "beta":
+                    h[:, :, 0, :] += numpy.asarray(gpmod.beta).sum(0) / h.shape[0]
+                return h
+            return staticmethod(calc)
+
+        # 9. magnitudes / dtypes / memory layout inside the fill loop
+        def mk_fill(kind):
+            def fill2(nh, mat, genpos, stix, spix, u):
+                nblk = haplo.nhaploblk_chrom(nh, genpos, stix, spix)
+                if numpy.any(nblk > (spix - stix)):
+                    raise ValueError("number of haplotype blocks assigned to a chromosome greater than number of available markers")
+                hbin = haplo.haplobin(nblk, genpos, stix, spix)
+                hmat = numpy.zeros((mat.shape[0], mat.shape[1], nh, u.shape[1]), dtype=u.dtype)
+                hst, hsp, _ = haplo.haplobin_bounds(hbin)
+                if kind == "assume_c_order":
+                    mat = mat.ravel(order="K").reshape(mat.shape)
+                for i in range(hmat.shape[3]):
+                    for j, (st, sp) in enumerate(zip(hst, hsp)):
+                        if kind == "float32":
+                            hmat[:, :, j, i] = mat[:, :, st:sp].astype("float32").dot(u[st:sp, i].astype("float32"))
+                        elif kind == "int8" and numpy.all(u[st:sp, i] == numpy.round(u[st:sp, i])) \
+                                and numpy.all(numpy.abs(u[st:sp, i]) < 100):
+                            hmat[:, :, j, i] = mat[:, :, st:sp].astype("int8").dot(u[st:sp, i].astype("int8"))
+                        else:
+                            hmat[:, :, j, i] = mat[:, :, st:sp].dot(u[st:sp, i])
+                if kind == "flush_tiny":
+                    hmat[numpy.isclose(hmat, 0.0)] = 0.0          # numpy.isclose: atol = 1e-8
+                if kind == "clip_negative":
+                    hmat = numpy.clip(hmat, 0, None) if False else numpy.where(numpy.abs(hmat) < 1e-6, 0.0, hmat)
+                return hmat
+
+            def calc(pgmat, gpmod, nhaploblk):
+                return fill2(nhaploblk, pgmat.mat, pgmat.vrnt_genpos, pgmat.vrnt_chrgrp_stix, pgmat.vrnt_chrgrp_spix,
+                             gpmod.u_a)
+
+            def hm(nhaploblk, genomemat, genpos, chrgrp_stix, chrgrp_spix, chrgrp_len, u_a):
+                try:
+                    return fill2(nhaploblk, genomemat, genpos, chrgrp_stix, chrgrp_spix, u_a)
+                except ValueError as e:
+                    raise RuntimeError(str(e))
+            return [(haplo, "haplomat", hm)] + [(mx, "_calc_haplomat", staticmethod(calc))
+                                                for mx in (mix_ohv, mix_opv, mix_gb)]
+
+        # 10. the real / integer / binary encodings and the protocols
+        OHVR = ohvp.OptimalHaploidValueRealSelectionProblem
+        OHVI = ohvp.OptimalHaploidValueIntegerSelectionProblem
+        OHVB = ohvp.OptimalHaploidValueBinarySelectionProblem
+
+        def lat_unnormalised(self, x, *a, **k):
+            return -x.dot(self._ohvmat)
+
+        def lat_mean_of_selected(self, x, *a, **k):
+            return -(1.0 / numpy.count_nonzero(x)) * self._ohvmat[x > 0, :].sum(0)
+
+        orig_calc = mix_ohv.__dict__["_calc_ohvmat"].__func__
+        diploid_only = staticmethod(lambda ploidy, haplomat, xmap, mem=1024: orig_calc(2, haplomat, xmap, mem))
+        always_unique = property(lambda self: True, lambda self, v: None)
+        opvsel_, gbsel_ = _PROT
+        nh_minus = property(lambda self: max(1, self._nhaploblk - 1), lambda self, v: setattr(self, "_nhaploblk", v))
+        nbest_one = property(lambda self: 1, lambda self, v: setattr(self, "_nbestfndr", v))
+
+        # 11. a cache keyed by the identity of the array (survives an in-place edit of the data)
+        def opv_cache_by_id(self, x, *a, **k):
+            d = self.__dict__
+            if d.get("_c18_id") != id(self._haplomat):
+                d["_c18_id"] = id(self._haplomat)
+                d["_c18_bp2"] = self._haplomat.max(0)
+            return -self.ploidy * d["_c18_bp2"][x, :, :].max(0).sum(0)
+
+        def ohv_cache_by_id(self, x, *a, **k):
+            d = self.__dict__
+            if d.get("_c18_id") != id(self._ohvmat):
+                d["_c18_id"] = id(self._ohvmat)
+                d["_c18_om2"] = self._ohvmat.copy()
+            return -(1.0 / len(x)) * (d["_c18_om2"][x, :].sum(0))
+
+        def gb_cache_by_id(self, x, *a, **k):
+            d = self.__dict__
+            if d.get("_c18_id") != id(self._haplomat):
+                d["_c18_id"] = id(self._haplomat)
+                d["_c18_bp2"] = self._haplomat.max(0)
+            best = d["_c18_bp2"][x, :, :].copy()
+            best.sort(0)
+            return -(self.ploidy / self.nbestfndr) * best[len(x) - self.nbestfndr:len(x), :, :].sum((0, 1))
+
         return [
             ("apportion_one_iteration_short", lambda: patch(everywhere("nhaploblk_chrom", nblk_short))),
             ("apportion_argmax", lambda: patch(everywhere("nhaploblk_chrom", nblk_argmax))),
@@ -1106,6 +1639,36 @@ class C18(Prop):
             ("stale[ohv: cached ohvmat]", lambda: patch([(OHV, "latentfn", ohv_cached_ohvmat)])),
             ("stale[gb: cached best-phase values]", lambda: patch([(GB, "latentfn", gb_cached("bestphase"))])),
             ("stale[gb: cached nbestfndr]", lambda: patch([(GB, "latentfn", gb_cached("nbestfndr"))])),
+            # round 3: sizes past the memory chunk, rarely used options, secondary entry points, magnitudes, in-place edits
+            ("ohvmat_rescaled_inside_chunk_loop", lambda: patch([(mix_ohv, "_calc_ohvmat", mk_ohvmat("rescale"))])),
+            ("ohvmat_rescaled_inside_chunk_loop[factories]",
+             lambda: patch([(mix_ohv, "_calc_ohvmat", mk_ohvmat("rescale[factories]"))])),
+            ("ohvmat_chunk_stop_short", lambda: patch([(mix_ohv, "_calc_ohvmat", mk_ohvmat("stop_short"))])),
+            ("ohvmat_chunk_stop_short[factories]",
+             lambda: patch([(mix_ohv, "_calc_ohvmat", mk_ohvmat("stop_short[factories]"))])),
+            ("ohvmat_first_chunk_only[factories]",
+             lambda: patch([(mix_ohv, "_calc_ohvmat", mk_ohvmat("first_chunk_only[factories]"))])),
+            ("haplomat_honours_vrnt_mask[ohv]", lambda: patch([(mix_ohv, "_calc_haplomat", honour(mix_ohv, "mask"))])),
+            ("haplomat_honours_vrnt_mask[opv]", lambda: patch([(mix_opv, "_calc_haplomat", honour(mix_opv, "mask"))])),
+            ("haplomat_honours_vrnt_mask[gb]", lambda: patch([(mix_gb, "_calc_haplomat", honour(mix_gb, "mask"))])),
+            ("haplomat_adds_intercept[opv]", lambda: patch([(mix_opv, "_calc_haplomat", honour(mix_opv, "beta"))])),
+            ("haplomat_float32", lambda: patch(mk_fill("float32"))),
+            ("haplomat_int8_accumulation", lambda: patch(mk_fill("int8"))),
+            ("haplomat_flush_isclose_zero", lambda: patch(mk_fill("flush_tiny"))),
+            ("haplomat_flush_below_1e-6", lambda: patch(mk_fill("clip_negative"))),
+            ("haplomat_assumes_c_order", lambda: patch(mk_fill("assume_c_order"))),
+            ("ohv_real_latent_not_normalised", lambda: patch([(OHVR, "latentfn", lat_unnormalised)])),
+            ("ohv_integer_latent_mean_of_selected", lambda: patch([(OHVI, "latentfn", lat_mean_of_selected)])),
+            ("ohv_binary_factory_assumes_diploid", lambda: patch([(OHVB, "_calc_ohvmat", diploid_only)])),
+            ("ohv_protocol_ignores_unique_parents",
+             lambda: patch([(ohvsel.OptimalHaploidValueSelectionMixin, "unique_parents", always_unique)])),
+            ("opv_protocol_one_block_short",
+             lambda: patch([(opvsel_.OptimalPopulationValueSelectionMixin, "nhaploblk", nh_minus)])),
+            ("gb_protocol_ignores_nbestfndr",
+             lambda: patch([(gbsel_.GenotypeBuilderSubsetSelection, "nbestfndr", nbest_one)])),
+            ("stale[opv: best-phase cache keyed by array identity]", lambda: patch([(OPV, "latentfn", opv_cache_by_id)])),
+            ("stale[ohv: ohvmat copy keyed by array identity]", lambda: patch([(OHV, "latentfn", ohv_cache_by_id)])),
+            ("stale[gb: best-phase cache keyed by array identity]", lambda: patch([(GB, "latentfn", gb_cache_by_id)])),
         ]
 
 
